@@ -209,7 +209,7 @@ func VerifPathLockWait() {
 		f2 = f
 		finished = true
 	}()
-	verifYield() // let the second Open run until it blocks on the path lock
+	verifPoll() // let the second Open run until it blocks on the path lock
 	verifAssert(!finished, "the second Open is blocked while the first File is open")
 	if verifBool("plainopen") {
 		_, perr := Open(verifPath, 0600, opts)
@@ -218,7 +218,7 @@ func VerifPathLockWait() {
 	closed = true
 	verifAssert(f1.Close() == nil, "Close succeeds")
 	for k := 0; k < 4 && !finished; k++ {
-		verifYield()
+		verifPoll()
 	}
 	verifAssert(finished && f2 != nil, "the waiting Open completed after Close")
 	verifAssert(f2.Close() == nil, "Close succeeds")
